@@ -202,7 +202,12 @@ impl Drop for ViolGuard {
 pub fn run_clean(c: &SdCase, split: bool, prop: &'static str, acc: &mut Acc) -> Result<RunOut, Failure> {
     let card = SimCard::new(c.kind, c.timing.clone(), c.cap.clone(), c.bg_seed, vec![]);
     let delay = NoDelay(Rc::new(std::cell::Cell::new(0)));
-    let sd: Drv = SdCard::new_with_options(card.clone(), delay, AcquireOpts { use_crc: c.use_crc, acquire_retries: c.acquire_retries.max(1) as u32 + c.timing.cmd0_ignored as u32 });
+    // a sluggish card gets no extra attempts: the first use(s) may end in "card not found"
+    let retries = c.acquire_retries.max(1) as u32 + if c.timing.sluggish { 0 } else { c.timing.cmd0_ignored as u32 };
+    let sd: Drv = SdCard::new_with_options(card.clone(), delay, AcquireOpts { use_crc: c.use_crc, acquire_retries: retries });
+    // how often an identification may legitimately fail before it has to work
+    let mut init_failures_left: u32 = (c.timing.init_polls > 10_000) as u32 + if c.timing.sluggish { c.timing.cmd0_ignored as u32 } else { 0 };
+    let legit_init_failure = |e: &str| e.contains("TimeoutACommand") || e.contains("get_card_type() = None") || (c.timing.sluggish && e.contains("CardNotFound"));
     let blocks_cap = card.0.borrow().blocks;
     let _guard = ViolGuard(card.clone());
     let v2_layout = c.kind == Kind::V2Hc;
@@ -248,19 +253,27 @@ pub fn run_clean(c: &SdCase, split: bool, prop: &'static str, acc: &mut Acc) -> 
                             written.push(s + k);
                         }
                         Ok(Err(e)) => {
-                            if c.timing.init_polls > 10_000 && !init_failed_once && format!("{:?}", e).contains("TimeoutACommand") {
+                            let mut last = format!("{:?}", e);
+                            let mut done = false;
+                            while init_failures_left > 0 && legit_init_failure(&last) && card.0.borrow().inits_completed == 0 {
+                                init_failures_left -= 1;
                                 init_failed_once = true;
-                                // retry the same block once
+                                // retry the same block
                                 match catch_unwind(AssertUnwindSafe(|| sd.write(&bl, BlockIdx(s + k)))) {
                                     Ok(Ok(())) => {
                                         model.insert(s + k, payload(*seed, k));
                                         written.push(s + k);
-                                        continue;
+                                        done = true;
+                                        break;
                                     }
-                                    other => return Err(fail(prop, "write-failed", format!("call {} (split): retry after initialisation time-out failed: {:?}", i, other.map_err(|_| "panic")))),
+                                    Ok(Err(e2)) => last = format!("{:?}", e2),
+                                    Err(_) => return Err(fail(prop, "panic", format!("call {} (split): retry after a failed identification panicked", i))),
                                 }
                             }
-                            return Err(fail(prop, "write-failed", format!("call {} (split): write of block {} failed: {:?}", i, s + k, e)));
+                            if done {
+                                continue;
+                            }
+                            return Err(fail(prop, "write-failed", format!("call {} (split): write of block {} failed: {}", i, s + k, last)));
                         }
                         Err(p) => return Err(fail(prop, "panic", format!("call {}: {}", i, crate::interp::panic_msg(&p).0))),
                     }
@@ -271,17 +284,17 @@ pub fn run_clean(c: &SdCase, split: bool, prop: &'static str, acc: &mut Acc) -> 
                 Ok(x) => x,
                 Err((m, hang)) => return Err(fail(prop, if hang { "hang" } else { "panic" }, format!("call {} {:?}: {}", i, piece, m))),
             };
-            if let Err(e) = &r {
-                // a card that needs more ACMD41 polls than the driver's budget: the first use
-                // times out (legitimately); the driver must start over with CMD0 on the retry
-                if c.timing.init_polls > 10_000 && !init_failed_once && (e.contains("TimeoutACommand") || e.contains("get_card_type() = None")) {
-                    init_failed_once = true;
-                    acc.class("first-initialisation-timed-out");
-                    (r, start, count) = match do_call(&sd, &card, &piece, blocks_cap, &written) {
-                        Ok(x) => x,
-                        Err((m, hang)) => return Err(fail(prop, if hang { "hang" } else { "panic" }, format!("call {} {:?}: {}", i, piece, m))),
-                    };
-                }
+            // a card that needs more ACMD41 polls, or ignores more CMD0 frames, than the driver's
+            // budget allows: the first use(s) fail (legitimately); the driver must start over with
+            // CMD0 on the retry
+            while init_failures_left > 0 && card.0.borrow().inits_completed == 0 && matches!(&r, Err(e) if legit_init_failure(e)) {
+                init_failures_left -= 1;
+                init_failed_once = true;
+                acc.class("first-initialisation-failed-legitimately");
+                (r, start, count) = match do_call(&sd, &card, &piece, blocks_cap, &written) {
+                    Ok(x) => x,
+                    Err((m, hang)) => return Err(fail(prop, if hang { "hang" } else { "panic" }, format!("call {} {:?}: {}", i, piece, m))),
+                };
             }
             let out = match r {
                 Ok(o) => o,
@@ -565,7 +578,7 @@ fn run_faulted(c: &SdCase, acc: &mut Acc, monitor: bool) -> Result<(), Failure> 
                 Fault::RejectWrite { .. } => true,
                 Fault::WriteStatus { r1, status, .. } => (*r1 & 0x7F) != 0 || *status != 0,
                 Fault::SpiError { .. } => !spi_error_in_ignored_trailer(&card),
-                Fault::DeadFrom { .. } | Fault::BusyFrom { .. } | Fault::GarbageFrom { .. } => false,
+                Fault::DeadFrom { .. } | Fault::BusyFrom { .. } | Fault::GarbageFrom { .. } | Fault::StuckFrom { .. } => false,
                 // only version 2 cards answer CMD8 with an echo; identification must give up
                 Fault::WrongCmd8Echo { .. } => true,
             };
@@ -681,6 +694,7 @@ fn fault_name(f: &Fault) -> &'static str {
         Fault::DeadFrom { .. } => "dead-from",
         Fault::BusyFrom { .. } => "busy-from",
         Fault::GarbageFrom { .. } => "garbage-from",
+        Fault::StuckFrom { .. } => "stuck-from",
         Fault::SpiError { .. } => "spi-error",
         Fault::WrongCmd8Echo { .. } => "wrong-cmd8-echo",
     }
@@ -717,8 +731,19 @@ pub fn timing_strategy(near_budget: bool) -> BoxedStrategy<Timing> {
         prop_oneof![9 => (0u16..6), 1 => (10_001u16..10_040)],
         prop_oneof![4 => Just(0u8), 1 => (1u8..3)],
         prop_oneof![3 => Just(0u8), 1 => Just(0x20u8), 1 => Just(0x01u8), 1 => Just(0x08u8), 1 => Just(0x29u8)],
+        prop::bool::weighted(0.15),
     )
-        .prop_map(|(ncr, token_delay, busy_write, busy_stop, init_polls, cmd0_ignored, ocr_extra)| Timing { ncr, token_delay, busy_write, busy_stop, init_polls, cmd0_ignored, ocr_extra })
+        .prop_map(|(ncr, token_delay, busy_write, busy_stop, init_polls, cmd0_ignored, ocr_extra, sluggish)| Timing {
+            ncr,
+            token_delay,
+            busy_write,
+            busy_stop,
+            init_polls,
+            // a sluggish card ignores more CMD0 frames than a host with a small budget sends
+            cmd0_ignored: if sluggish { cmd0_ignored + 3 } else { cmd0_ignored },
+            ocr_extra,
+            sluggish,
+        })
         .boxed()
 }
 
@@ -752,7 +777,7 @@ pub fn case_strategy(with_faults: bool, near_budget: bool) -> BoxedStrategy<SdCa
                 prop_oneof![4 => (1u8..5), 1 => Just(50u8)],
                 capacity_strategy(kind),
                 timing_strategy(near_budget),
-                any::<u32>(),
+                prop_oneof![6 => any::<u32>(), 1 => Just(0u32), 1 => Just(1u32)],
                 prop::collection::vec(call_strategy(), 1..if with_faults { 12 } else { 40 }),
                 if with_faults { fault_strategy().prop_map(|f| vec![f]).boxed() } else { Just(vec![]).boxed() },
             )
@@ -768,9 +793,11 @@ pub fn fault_strategy() -> impl Strategy<Value = Fault> {
         2 => (0u16..6, prop_oneof![Just(0xFCu8), Just(0x0Fu8), Just(0x01u8), Just(0x00u8), Just(0xFDu8), any::<u8>().prop_map(|x| if x == 0xFE || x == 0xFF { 0x7E } else { x })]).prop_map(|(nth_read, token)| Fault::WrongToken { nth_read, token }),
         2 => (0u16..8, prop_oneof![Just(0x0Bu8), Just(0x0Du8), Just(0x00u8), Just(0x1Fu8)]).prop_map(|(nth_write, code)| Fault::RejectWrite { nth_write, code }),
         2 => (0u16..4, prop_oneof![Just(0u8), Just(0x04u8), Just(0x40u8)], prop_oneof![Just(0u8), Just(0x01u8), Just(0x80u8), Just(0x04u8)]).prop_map(|(nth_write, r1, status)| Fault::WriteStatus { nth_write, r1, status }),
-        3 => prop_oneof![(0u32..200), (0u32..5000)].prop_map(|at| Fault::DeadFrom { at }),
-        3 => prop_oneof![(0u32..200), (0u32..5000)].prop_map(|at| Fault::BusyFrom { at }),
+        // positions: early, anywhere in the first calls, and around the driver's 10,000-poll budgets
+        3 => prop_oneof![3 => (0u32..200), 3 => (0u32..5000), 1 => (9_950u32..10_060), 1 => (19_950u32..20_100)].prop_map(|at| Fault::DeadFrom { at }),
+        3 => prop_oneof![3 => (0u32..200), 3 => (0u32..5000), 1 => (9_950u32..10_060), 1 => (19_950u32..20_100)].prop_map(|at| Fault::BusyFrom { at }),
         3 => (prop_oneof![(0u32..200), (0u32..5000)], any::<u32>()).prop_map(|(at, seed)| Fault::GarbageFrom { at, seed }),
+        3 => (prop_oneof![3 => (0u32..200), 3 => (0u32..5000), 1 => (9_950u32..10_060)], prop_oneof![4 => (0x80u8..0xFF), 1 => Just(0x01u8), 1 => Just(0x7Fu8), 1 => Just(0x55u8), 1 => any::<u8>()]).prop_map(|(at, value)| Fault::StuckFrom { at, value }),
         3 => prop_oneof![(0u32..60), (0u32..2000)].prop_map(|nth_transaction| Fault::SpiError { nth_transaction }),
         1 => prop_oneof![Just(0x00u8), Just(0xFFu8), Just(0x55u8), any::<u8>()].prop_map(|echo| Fault::WrongCmd8Echo { echo }),
     ]
@@ -786,7 +813,7 @@ pub fn enumerate_bit_flips(acc: &mut Acc, test: &dyn Fn(&SdCase, &mut Acc) -> Re
                 use_crc: true,
                 acquire_retries: 2,
                 cap: cap.clone(),
-                timing: Timing { ncr: (bit % 9) as u8, token_delay: bit % 5, busy_write: 3, busy_stop: 2, init_polls: 1, cmd0_ignored: 0, ocr_extra: 0 },
+                timing: Timing { ncr: (bit % 9) as u8, token_delay: bit % 5, busy_write: 3, busy_stop: 2, init_polls: 1, cmd0_ignored: 0, ocr_extra: 0, sluggish: false },
                 bg_seed: 77 + bit as u32,
                 calls: vec![SdCall::Write { block: BlockSel::Exact(5), n: 1, seed: bit as u32 }, SdCall::Read { block: BlockSel::Exact(5), n: 1 }, SdCall::Read { block: BlockSel::Exact(5), n: 1 }],
                 faults: vec![Fault::FlipBit { nth_read: 0, bit }],
@@ -809,7 +836,7 @@ pub fn enumerate_bit_flips(acc: &mut Acc, test: &dyn Fn(&SdCase, &mut Acc) -> Re
                         use_crc: false,
                         acquire_retries: 2,
                         cap: cap.clone(),
-                        timing: Timing { ncr: 1, token_delay: 1, busy_write: 0, busy_stop: 0, init_polls: 0, cmd0_ignored: 0, ocr_extra: 0 },
+                        timing: Timing { ncr: 1, token_delay: 1, busy_write: 0, busy_stop: 0, init_polls: 0, cmd0_ignored: 0, ocr_extra: 0, sluggish: false },
                         bg_seed: 3,
                         calls: vec![call, SdCall::Read { block: BlockSel::Zero, n: 1 }],
                         faults: vec![Fault::FlipBit { nth_read: 0, bit }],
